@@ -226,8 +226,12 @@ func runCase(t tcase) (result, []string) {
 			bad("callback failed at event %d but %d events were delivered", t.At, len(res.Delivered))
 		}
 	case "cb-cancel":
-		// cancelled while something was still undelivered => non-nil (covered by the
-		// nil-and-incomplete rule above); if everything was delivered both are accepted
+		// The context was cancelled while events were still undelivered: Replay must
+		// return a non-nil error (however many events it went on to deliver). Only when
+		// the cancellation comes with the very last event are both results accepted.
+		if len(res.Delivered) >= t.At && t.At < want && res.IsNil {
+			bad("the context was cancelled at event %d of %d but Replay returned nil", t.At, want)
+		}
 	case "store-fail":
 		reached := fs.failAt != 0 && (fs.reads >= fs.failAt || !cfg.Paged)
 		_ = reached
@@ -305,6 +309,8 @@ func sigOf(t tcase, msg string) string {
 		m = "Replay returned nil without delivering every event after the offset"
 	case len(m) > 18 && m[:18] == "delivered sequence":
 		m = "delivered sequence is not a gap-free in-order prefix"
+	case len(m) > 15 && m[:15] == "the context was":
+		m = "context cancelled with events still undelivered but Replay returned nil"
 	case len(m) > 12 && m[:12] == "the callback":
 		m = "callback error swallowed (Replay returned nil)"
 	case len(m) > 15 && m[:15] == "callback failed":
@@ -354,7 +360,7 @@ func replay(c *h.Check, rf *h.ReplayFile) []vrt.Violation {
 
 func main() {
 	h.Main("C11", "fault_enumeration", []string{
-		"if the context is cancelled after everything was delivered, nil and non-nil are both accepted",
+		"if the context is cancelled by the callback of the very last event, nil and non-nil are both accepted; cancelled earlier, Replay must return a non-nil error",
 		"SQLite: after a cancellation the harness waits until database/sql has closed the cursor (it does so asynchronously), so the outcome does not depend on timing; row-fetch failures are injected by a wrapping database/sql driver installed through the verif-tagged opener hook",
 		"a store read failure is injected at the EventStore/EventStoreStreamer interface (p-th Read call or p-th streamed element)",
 	}, run, replay, func(tier string) map[string]any {
